@@ -27,6 +27,13 @@ def extra_lines(rng, tier):
                          (1 << 32) - 2, (1 << 53) - 1, (1 << 53) + 1, (1 << 53) + 3, (1 << 64) - 3, rng.randint(0, (1 << 64) - 50)])
         ns = rng.choice(NAMESPACES + [str(uuid.UUID(int=rng.getrandbits(128)))])
         out.append("g%d|100||%s|%s%d|mode=O,proj=gen+map+tk,gen0=%d,ns=%s" % (i, threads, rng.choice("rp"), rng.randint(1, 10 ** 9), g0, ns))
+    # observers of the generator racing `next()`: Debug-formatting or serialising it (a log line, a checkpoint) must not
+    # disturb the sequence.  Not calls of Model/Conc.v: judged only (flag `nomodel`).
+    for i in range(120 if tier == "quick" else 2500):
+        nt = rng.choice([2, 3])
+        ths = [";".join(["NEXT"] * rng.randint(1, 4)) for _ in range(nt)]
+        ths.append(";".join(rng.choice(["DBG", "GSER"]) for _ in range(rng.randint(1, 3))))
+        out.append("o%d|100||%s|%s%d|mode=O,nomodel,gen0=%d" % (i, "#".join(ths), rng.choice("rp"), rng.randint(1, 10 ** 9), rng.choice([0, 0, 5, 10 ** 6])))
     return out
 
 
